@@ -41,7 +41,7 @@ def classify(r):
             return "lazy-objstm|" + ("not-encrypted" if enc else "children-lost")
         if cfg["eol"] == "CR" and (enc or (s["extra"] == "stream" and s["filter"] == "none")) and not what.startswith("error at write"):
             return "stream-shift|eol=CR"
-        return "gen|%s|%s" % (what.split(" at ")[0][:40], vlib.digest(s))
+        return "gen|%s|extra=%s|mode=%s|enc=%s|eol=%s" % (what[:40], s["extra"], s["mode"], cfg["enc"], cfg["eol"])
     if cfg["eol"] == "CR" and not what.startswith("error at write") and (
             enc or re.search(r"data:(\d+):\w+  =/=  \d+: .*data:\1:", r.get("detail", ""))):
         return "stream-shift|eol=CR"
